@@ -469,6 +469,10 @@ impl AExec {
         }
     }
 
+    fn exec_boxed<'a>(&'a mut self, op: &'a Op) -> futures::future::LocalBoxFuture<'a, Result<Out, ErrInfo>> {
+        Box::pin(self.exec_inner(op))
+    }
+
     async fn exec_inner(&mut self, op: &Op) -> Result<Out, ErrInfo> {
         let v = |e: vfs::VfsError| err_info(&e);
         let root = self.root.clone();
@@ -499,6 +503,24 @@ impl AExec {
                         Err(e) => items.push(Err(err_info(&e))),
                     }
                     if items.len() > 100_000 {
+                        break;
+                    }
+                }
+                Ok(Out::Walk(items))
+            }
+            Op::WalkAfter { p, muts } => {
+                let mut st = path(p)?.walk_dir().await.map_err(v)?;
+                for m in muts {
+                    let _ = self.exec_boxed(m).await;
+                }
+                let mut items = vec![];
+                while let Some(x) = st.next().await {
+                    match x {
+                        Ok(c) => items.push(Ok(c.as_str().to_string())),
+                        Err(e) => items.push(Err(err_info(&e))),
+                    }
+                    if items.len() > 10_000 {
+                        items.push(Err(ErrInfo { class: ErrClass::Other, path: String::new(), display: "walk does not terminate".into(), io_only: true }));
                         break;
                     }
                 }
